@@ -68,7 +68,10 @@ def main(prop, case_source, deciding_counters, level="exploration", nontrivial=N
         walls.append(result["wall"])
         counters = result["counters"].get(prop, {})
         for name, value in counters.items():
-            verdict.count(name, value)
+            if name.startswith("max_"):
+                verdict.counters[name] = max(verdict.counters.get(name, 0), value)
+            else:
+                verdict.count(name, value)
         stats = result["stats"]
         verdict.count("executions_observed", stats["execs"])
         verdict.count("events_recorded", stats["events"])
